@@ -1,6 +1,6 @@
 (* C09 - BinaryPolynomial arithmetic agrees with evaluation over GF(2): specification-level theorems. *)
 From Coq Require Import NArith Arith List Bool.
-From OFV Require Import Model.BinaryPoly Thm.C09.EvalHom.
+From OFV Require Import Model.BinaryPoly Thm.C09.EvalHom Thm.C09.ParityCode.
 Import ListNotations.
 Theorem C09_eval_add : forall a p q, beval a (badd p q) = xorb (beval a p) (beval a q).
 Proof. exact beval_add. Qed.
@@ -15,3 +15,12 @@ Print Assumptions C09_eval_shift.
 Theorem C09_canonical_form_sound : forall a p, beval a (bcanon p) = beval a p.
 Proof. exact beval_bcanon. Qed.
 Print Assumptions C09_canonical_form_sound.
+
+(* [F] EVERY number of modes: the parity code and the Jordan-Wigner code (models of their encoder rows and
+   linear decoders, compared with the implementation for the tested sizes) decode what they encode *)
+Theorem C09_parity_code_roundtrip : forall n v, (v < 2 ^ N.of_nat n)%N -> decode (parity_dec n) (encode (parity_rows n) v) = v.
+Proof. exact parity_code_roundtrip. Qed.
+Print Assumptions C09_parity_code_roundtrip.
+Theorem C09_jw_code_roundtrip : forall n v, (v < 2 ^ N.of_nat n)%N -> decode (jw_dec n) (encode (jw_rows n) v) = v.
+Proof. exact jw_code_roundtrip. Qed.
+Print Assumptions C09_jw_code_roundtrip.
